@@ -215,8 +215,8 @@ func (w *Worker) harnessIntrinsic(st *State, f *Frame, x ssa.Value, name string,
 			panic(engineErr("no main.main"))
 		}
 		// a fresh process: package-level state as it is after initialisation, empty trace
-		for _, id := range w.e.globals {
-			st.heap[id] = deep(w.e.base.heap[id])
+		for id, v := range w.e.base.heap {
+			st.heap[id] = deep(v)
 		}
 		st.trace = nil
 		st.stdinPos = 0
